@@ -193,11 +193,14 @@ def run_job(job):
     t0 = time.time()
     last = -1
     last_change = t0
+    expect = job.get("expect_starts", 0)
     while time.time() - t0 < 3.0:
         n = sum(1 for e in hooks.snapshot() if e["e"] in ("p.start", "sr.svc.enter"))
         if n != last:
             last, last_change = n, time.time()
-        if time.time() - last_change >= want:
+        # (settled: nothing new for a while - and, as long as fewer starts than the
+        #  specification expects have been seen, not before the full three seconds are over)
+        if time.time() - last_change >= want and n >= expect:
             break
         time.sleep(0.01)
     ev = hooks.snapshot()
